@@ -674,7 +674,11 @@ pub fn run(out: &mut Out, rng: &mut Rng, seed: u64, count: usize) {
                 out.oracle_fail("reflect", &id, &format!("bin_to_reflect panicked for {}: {}", label, p));
                 ("panic".to_string(), "-".to_string())
             }
-            Ok(d) => {
+            Ok(None) => {
+                out.oracle_fail("reflect", &id, &format!("bin_to_reflect rejected reflect_to_bin output for {}", label));
+                ("none".to_string(), "-".to_string())
+            }
+            Ok(Some(d)) => {
                 // oracle 1: reflect-equal (NaN makes reflect_partial_eq false by design: reported separately)
                 match d.reflect_partial_eq(v) {
                     Some(true) => out.stat("reflect.partial_eq.true"),
